@@ -30,6 +30,8 @@ const (
 	mutPanic
 	mutStoreCompare   // Store decides by current != value whether its closure supplied the value
 	mutStoreDeepEqual // Store skips the overwrite when the present value is reflect.DeepEqual to the new one
+	mutLoadReadEarly  // Load reads the placeholder's result before it waits (e.g. defer v.wg.Wait(); return v.v, true)
+	mutLosReadEarly   // the same in the waiter branch of LoadOrStore
 )
 
 type inFlight struct {
@@ -50,6 +52,10 @@ func (m *mutMap) LoadOrStore(key interface{}, f func() interface{}) interface{} 
 	if s, loaded := m.m.LoadOrStore(key, value); loaded {
 		if v, ok := s.(*inFlight); ok {
 			hook(2)
+			if m.mut == mutLosReadEarly {
+				defer v.wg.Wait()
+				return v.v
+			}
 			if m.mut != mutNoWaitLos {
 				v.wg.Wait()
 			}
@@ -87,6 +93,10 @@ func (m *mutMap) Load(key interface{}) (interface{}, bool) {
 	}
 	if v, ok := s.(*inFlight); ok {
 		hook(7)
+		if m.mut == mutLoadReadEarly {
+			defer v.wg.Wait()
+			return v.v, true
+		}
 		if m.mut != mutNoWaitLoad {
 			v.wg.Wait()
 		}
@@ -328,8 +338,8 @@ func selftest() int {
 		all  bool     // run with every value kind (otherwise ints)
 	}{
 		{mutNone, "faithful copy", nil, true, false},
-		{mutNoWaitLos, "LoadOrStore does not Wait", []string{"wait-not-blocking"}, true, false},
-		{mutNoWaitLoad, "Load does not Wait", []string{"wait-not-blocking"}, true, false},
+		{mutNoWaitLos, "LoadOrStore does not Wait", []string{"wait-not-blocking", "placeholder-returned"}, false, false},
+		{mutNoWaitLoad, "Load does not Wait", []string{"wait-not-blocking", "placeholder-returned"}, true, false},
 		{mutLoadRaw, "Load returns the raw entry", []string{"placeholder-returned", "step-sequence"}, false, false},
 		{mutNoDone, "Done never called", []string{"blocked"}, false, false},
 		{mutNone, "faithful copy after goroutines were leaked", nil, true, false},
@@ -343,6 +353,8 @@ func selftest() int {
 			"store-lost@mixed", "step-sequence@float64"}, false, true},
 		{mutStoreDeepEqual, "Store skips the overwrite of a deeply equal value", []string{"store-lost@pointer", "store-lost@slice", "store-lost@struct-slice",
 			"step-sequence@pointer"}, false, true},
+		{mutLoadReadEarly, "Load reads the result before it waits", []string{"waiter-wrong-value", "placeholder-returned", "waiter-wrong-value@int"}, true, true},
+		{mutLosReadEarly, "LoadOrStore's waiter reads the result before it waits", []string{"waiter-wrong-value", "placeholder-returned", "waiter-wrong-value@int"}, true, true},
 		{mutNone, "faithful copy, every value kind, after panics", nil, true, true},
 	}
 	for _, e := range expect {
